@@ -40,11 +40,21 @@ TRUSTED_BASE_COMMON = [
 ]
 
 
+def _raise_stack():
+    """coqc overflows the default 8 MB stack on large literals: lift the soft limit to the hard one"""
+    try:
+        import resource
+        soft, hard = resource.getrlimit(resource.RLIMIT_STACK)
+        resource.setrlimit(resource.RLIMIT_STACK, (hard, hard))
+    except Exception:  # noqa
+        pass
+
+
 def sh(cmd, timeout=600, cwd=None, env=None):
     """Run a command (list) under a timeout; returns (rc, stdout+stderr)."""
     try:
         p = subprocess.run(cmd, cwd=cwd, env=env, timeout=timeout, stdout=subprocess.PIPE,
-                           stderr=subprocess.STDOUT, text=True, errors='replace')
+                           stderr=subprocess.STDOUT, text=True, errors='replace', preexec_fn=_raise_stack)
         return p.returncode, p.stdout
     except subprocess.TimeoutExpired as e:
         out = e.stdout or ''
